@@ -193,7 +193,7 @@ Section SetTop.
   Variable Cm : cmpk T.
 
   (* a fit's inversion as the factory builds it, then any attributes read from it *)
-  Lemma make_fit_ok inp own cmdm f : make_fit K inp own cmdm = Ok f -> consistent K inp (f_mode f) own ->
+  Lemma make_fit_ok inp own f : make_fit K inp own = Ok f -> consistent K inp (f_mode f) own ->
     f_inp f = inp /\ make_inversion K inp own = Ok (f_mode f) /\ fit_ok K inp (f_mode f) f.
   Proof.
     unfold make_fit. destruct (make_inversion K inp own) as [mode|e] eqn:E; [|discriminate]. intro H. injection H as <-. simpl.
@@ -204,8 +204,8 @@ Section SetTop.
   (* Whatever Preloads.set_* store -- any second fit, any methods in any order, any attributes of fit_0's inversion read
      beforehand, fit_0's inversion built with its own (consistent) preloads -- satisfies the invariant under which every later
      inversion on fit_0's inputs returns the specification values; fit_0's inversion keeps returning them too. *)
-  Theorem set_preloads_fresh inp0 own0 cmdm0 f0 f1 reads0 ss P :
-    make_fit K inp0 own0 cmdm0 = Ok f0 -> consistent K inp0 (f_mode f0) own0 -> set_laws K inp0 (f_mode f0) ->
+  Theorem set_preloads_fresh inp0 own0 f0 f1 reads0 ss P :
+    make_fit K inp0 own0 = Ok f0 -> consistent K inp0 (f_mode f0) own0 -> set_laws K inp0 (f_mode f0) ->
     consistent K inp0 (f_mode f0) P ->
     let f0a := snd (freads K code f0 reads0) in
     let r := run_setters K code Cm ss P f0a f1 in
@@ -215,7 +215,7 @@ Section SetTop.
     (forall h, make_inversion K inp0 P' = Ok (f_mode f0) ->
                fst (run_history K inp0 code P' h) = map (fun qs => Ok (map (pure K inp0 (f_mode f0)) qs)) h).
   Proof.
-    intros Hmk Hown HL HP f0a r P'. destruct (make_fit_ok inp0 own0 cmdm0 f0 Hmk Hown) as (_ & _ & Hf0).
+    intros Hmk Hown HL HP f0a r P'. destruct (make_fit_ok inp0 own0 f0 Hmk Hown) as (_ & _ & Hf0).
     destruct (freads_ok T K inp0 (f_mode f0) reads0 f0 Hf0) as [_ Hf0a]. fold f0a in Hf0a.
     destruct (run_setters_ok T K Cm inp0 (f_mode f0) HL ss P f0a f1 Hf0a HP) as [HP' Hf']. fold r in HP', Hf'. fold P' in HP'.
     split; [exact HP'|]. split.
@@ -232,9 +232,9 @@ Section SetToy.
   Definition zcmp : cmpk Z :=
     {| c_close_v := list_eqb Z.eqb; c_close_m := list_eqb (list_eqb Z.eqb); c_close_t := Z.eqb |}.
   Definition fitB : fit Z :=
-    {| f_inp := inpB; f_mode := None; f_st := {| cache := empty_cache Z; store := empty_store |}; f_cmd_map := Ok [[1]] |}.
+    {| f_inp := inpB; f_mode := None; f_st := {| cache := empty_cache Z; store := empty_store |} |}.
   Lemma set_toy_hyps :
-    make_fit zk inpB empty_store (Ok [[1]]) = Ok fitB /\ consistent zk inpB (f_mode fitB) empty_store /\
+    make_fit zk inpB empty_store = Ok fitB /\ consistent zk inpB (f_mode fitB) empty_store /\
     set_laws zk inpB (f_mode fitB) /\
     (let P' := snd (fst (fst (run_setters zk code zcmp [SetWt; SetOmm; SetLf; SetCurv; SetReg] empty_store
                                            (snd (freads zk code fitB [QCurv])) fitB))) in
